@@ -18,13 +18,27 @@ class P(piperun.PipeProperty):
         return oracles.c02(p, obs)
 
     def known(self, p, obs, clause, detail, findings):
-        # F18: items() view whose key table is refused: ds[i] raises what ds.keys() raises
+        # F18: an items() view over an input whose key table is refused (duplicate keys / a part without keys):
+        # indexable, iterates, but items()[i] raises what keys() raises - also when further stages sit on top
         got = detail.get('got', {})
-        if clause in ('getitem_eq_iter', 'out_of_range_IndexError') and 'items' in G.ops_of(p) \
-                and 'err' in got and obs['keys'] == {'err': got['err']} \
-                and got['err'] in ('AssertionError', 'NotImplementedError'):
+        if clause in ('getitem_eq_iter', 'out_of_range_IndexError', 'getitem_eq_ref') and 'err' in got \
+                and got['err'] in ('AssertionError', 'NotImplementedError') and has_f18(p):
             return 'F18' if any(f['id'] == 'F18' for f in findings) else None
         return None
+
+
+def has_f18(p):
+    import pyref
+    if p['op'] == 'items':
+        try:
+            rf = pyref.ref(p['p'])
+            if rf.indexable and not rf.keys_api:
+                return True
+        except Exception:  # noqa
+            return True
+    if 'p' in p and has_f18(p['p']):
+        return True
+    return any(has_f18(q) for q in p.get('ps', []))
 
 
 def run(rep):
